@@ -27,12 +27,16 @@ def length_equalities(body, pv):
         if not (s.k == "assign" and s.rv["k"] == "bin" and s.rv["op"] in ("Eq", "Ne") and s.rv.get("lty") == "usize"):
             continue
         sides = [pv.of_operand(body, s.rv["l"]), pv.of_operand(body, s.rv["r"])]
+        # offsets may be computed by a small helper (`section_payload(bytes, start) -> (start + 4, start + 4 + len)`): look through it
+        pvi = Prov(body.prog, inline=True)
+        sides_i = [pvi.of_operand(body, s.rv["l"]), pvi.of_operand(body, s.rv["r"])]
 
         def is_len(at):
             return (any(a[0] == "call" and re.search(r"::len$", a[1]) for a in at) or ("len",) in at) and not any(a[0] == "op" and a[1].startswith(("Add", "Mul")) for a in at)
 
         def is_offset(at):
-            return any(a[0] == "op" and a[1].startswith("Add") for a in at)
+            i = sides.index(at) if at in sides else None
+            return any(a[0] == "op" and a[1].startswith("Add") for a in at) or (i is not None and any(a[0] == "op" and a[1].startswith("Add") for a in sides_i[i]) and any(a[0] == "call" and a[1] in body.prog.bodies for a in at))
 
         def is_declared(at):
             return any(a[0] == "call" and a[1].endswith("u32_from_bytes") or (a[0] == "call" and "from_be_bytes" in a[1]) for a in at) and not is_offset(at)
